@@ -233,16 +233,21 @@ def on_segment(a, b, p):
 
 
 def terminal_on_tree_path(sc, pre):
-    """classifier (F-j): in the tree before improvement (twin scene without improvement, first transaction) the pin position of
-    a terminal coincides with a junction or with a point of a connector route that is not that connector's own end at the terminal"""
+    """classifier (F-j): in the tree before improvement (junction position() of the scene's own output / twin scene without
+    improvement, first transaction) a junction was created at a terminal's pin or inside/on the terminal's shape, or a terminal's pin is an
+    interior point of a connector route"""
     if not pre or not pre['tx'] or not pre['tx'][0]['complete']:
         return None
     t = pre['tx'][0]
     for s in sc.terminals():
         p = t['pins'].get(s)
+        b = t['boxes'].get(s)
         for jid, j in t['juncs'].items():
             if p is not None and j['pos'] == p:
                 return {'terminal': s, 'pin': p, 'junction_created_at_pin': jid}
+            if b is not None and inside_box(b, j['pos']):
+                # routes to a centre pin stop at the shape border: a junction in or on the terminal's shape is the same situation
+                return {'terminal': s, 'shape': b, 'junction_created_in_or_on_terminal_shape': jid, 'junction_position': j['pos']}
     for s in sc.terminals():
         p = t['pins'].get(s)
         if p is None:
@@ -268,10 +273,28 @@ def run_scenes(scenes, flavor='exc'):
     os.makedirs(d, exist_ok=True)
     tag = '%d' % os.getpid()
     sf = os.path.join(d, 'c12_scenes_%s.txt' % tag)
-    open(sf, 'w').write(''.join(s.text() for s in scenes))
-    rc, out, err, dt = C.sh([exe, sf], timeout=1800)
-    obs = parse_harness(out)
-    crashed = {'rc': rc, 'stderr': err[-1500:]} if rc != 0 else None
+    # run; when the harness dies (signal / sanitizer abort) the scene it was in is the failing input: record it and go on
+    # with the scenes after it
+    obs, crashed, todo = {}, None, list(scenes)
+    while todo:
+        open(sf, 'w').write(''.join(s.text() for s in todo))
+        rc, out, err, dt = C.sh([exe, sf], timeout=1800)
+        part = parse_harness(out)
+        done = set(l.split()[1] for l in out.split('\n') if l.startswith('ENDSCENE'))
+        obs.update({k: v for k, v in part.items() if k in done})
+        if rc == 0:
+            break
+        idx = next((i for i, s in enumerate(todo) if s.sid not in done), None)
+        if idx is None:
+            break
+        culprit = todo[idx]
+        o = part.get(culprit.sid, {'tx': [], 'assert': None})
+        o['crash'] = {'rc': rc, 'stderr': err[-1200:]}
+        obs[culprit.sid] = o
+        crashed = (crashed or []) + [culprit.sid]
+        todo = todo[idx + 1:]
+        if len(crashed) > 20:
+            break
     cmds, plan = [], []
     for sc in scenes:
         o = obs.get(sc.sid)
@@ -314,6 +337,9 @@ def judge(sc, o, graphs, answers, pre, stats):
     # scene's own intermediate tree: mtst.cpp orders tree roots by pointer value)
     onpath = terminal_on_tree_path(sc, o) or (terminal_on_tree_path(sc, pre) if sc.opt >= 1 else None)
     tl = bool(sc.reroute and sc.reroute[0] == 'T')
+    if o.get('crash'):
+        bad.append((dict(base, what='the harness process died inside libavoid while running this scene (signal / abort)', detail=o['crash'],
+                         transactions_completed=len([t for t in o['tx'] if t['complete']])), None))
     if o['assert']:
         fpa = None
         if tl and 'conn->m_dst_connend' in o['assert'] and 'hyperedgetree.cpp' in o['assert']:
@@ -464,8 +490,6 @@ def run(tier):
     for i in range(n // 4):
         scenes.append(gen_scene(rng.fork(), 'fj%d' % i, nt=rng.range(5, 6), mode=1, opt=2, generic=False))
     all_bad, stats, fam, samples, crashed = evaluate(scenes)
-    if crashed:
-        all_bad.append(({'what': 'harness c12_hyper crashed', 'detail': crashed}, None))
     report(res, all_bad)
     unknown = [b for b in all_bad if b[1] is None or not res.known_fingerprint(b[1])]
     # model self-test through the extracted ops (evidence sample; the theorems are the proof)
@@ -498,3 +522,26 @@ def replay(path):
 def warm():
     C.build_harness('c12_hyper', ['libavoid'], 'exc')
     C.ocaml_build('c12', 'C12.v', 'c12_driver.ml', 'c12_model.ml')
+
+
+META = {
+    'property_id': PID,
+    'level_claimed': {
+        'category': 'proof',
+        'text': 'Coq theorems over finite multigraphs on nat (Graph/UnionFind.v, Graph/Trees.v) and the abstract hyperedge operations '
+                '(Avoid/HyperTreeModel.v): tree_checker_sound_complete (is_tree_with_leaves g T = true iff g connected, acyclic (every edge a '
+                'bridge) and its degree-1 nodes are exactly T), contract_preserves / merge_preserves / split_preserves, kruskal_spanning '
+                '(quick-find construction: acyclic subgraph with the candidates\' connectivity, so spanning all terminals the candidates connect), '
+                'C12_ops (any sequence of ContractEdge / SplitJunction / MergeJunctions / checker-guarded ReplaceByMTST keeps "tree with leaf '
+                'set T"), and kruskal_leaves_refuted (Kruskal alone does not make the terminals the leaves). The implementation is tied only '
+                'by V: the extracted checker runs on the real connector/junction graph after every transaction, with route-end and '
+                'new/deleted-list oracles; that is validation and search, not a proof about hyperedgeimprover.cpp.',
+        'design_ref': 'DESIGN.md 5.12'},
+    'level_note': 'partial: the abstract operations are not tied to the C++ by an op log (hook H2 not installed; an unlogged or different edit '
+                  'shows only through the V-run of the checker on the final graph). Trusted: Coq kernel, extraction, OCaml/C++ drivers, the graph '
+                  'reading of Router::connRefs / endpointConnEnds(). Oracle calibration: live = not queued for removal; junction ends at position() or '
+                  'recommendedPosition(); shape ends inside or on the shape; route orientation not required. Main stream: generic-position terminals, '
+                  'registration none / by junction. Classified streams (known findings re-found every run): terminal_on_tree_path (F-j), '
+                  'terminal_list_unattached (registration by terminal list).',
+    'technique': 'Coq proof over an abstract graph model + verified tree checker extracted and run on the real hyperedge graph',
+}
